@@ -33,11 +33,18 @@ def encode_as_wav(base, code, bk_filename, turbo=False):
             + env.PAUSE
             + encode_data_bits(code, env)
             + (env.PAUSE if turbo else b"")
-            + encode_data_bits(struct.pack("<H", sum(code) % (2 ** 16 - 1)), env)
+            + encode_data_bits(struct.pack("<H", checksum(code)), env)
             + env.EOF
         ),
         env.sample_rate
     )
+
+
+def checksum(code):
+    # 16-bit sum with end-around carry, as the BK-0010 monitor computes it: the
+    # result is 0 only for an all-zero sum, a non-zero multiple of 0xffff gives 0xffff
+    total = sum(code)
+    return (total - 1) % (2 ** 16 - 1) + 1 if total else 0
 
 
 def encode_data_bits(data, env):
